@@ -78,7 +78,14 @@ def collective_uniformity(ctx, rep, rule: str, only_classes: set[str] | None = N
                     # one defect, many allocation sites: state is allocated while iterating the rank's own blocks
                     key = f"sink:{sink}@{short(entry_fn)}<-loop-over-rank-local-lists"
                 else:
-                    key = f"sink:{sink}@{short(entry_fn)}<-{o.what}:{short(o.func)}:{_norm(A.emptiness_normal(o.node.test) if hasattr(o.node, 'test') else getattr(o.node, 'iter', o.node))[:90]}"
+                    subj = A.emptiness_normal(o.node.test) if hasattr(o.node, "test") else getattr(o.node, "iter", o.node)
+                    if o.what == "branch" and o.required is not None and hasattr(o.node, "test"):
+                        # polarity-independent: the key names the condition under which the collective is SKIPPED
+                        # (`if not xs: continue` and `if xs: <rest of the loop body>` are one finding)
+                        from ..canon import simplify_test
+
+                        subj = simplify_test(ast.UnaryOp(op=ast.Not(), operand=subj)) if o.required else simplify_test(subj)
+                    key = f"sink:{sink}@{short(entry_fn)}<-{o.what}:{short(o.func)}:{_norm(subj)[:90]}"
                 if key in reported:
                     continue
                 reported.add(key)
